@@ -412,6 +412,37 @@ theorem c06_run_vote_returns (cfg : Cfg) (voters : List Voter) (hne : voters ≠
     intro h; exact hne (List.length_eq_zero_iff.mp h)
   simp [this]
 
+/-- The same about `run_vote` AS THE CODE RUNS IT (`runVoteE`: `_aggregate_votes` with the `ZeroDivisionError` of
+    `threshold / len(self.colony)` in `_threshold_vote`): it returns for every non-empty colony, and what it returns
+    is the total `runVote` every other theorem speaks about; it raises exactly for the empty colony under the count
+    strategy with `min_voters = 0` (the gate returns before the strategy runs otherwise). -/
+theorem c06_run_vote_total_on_nonempty_colonies (cfg : Cfg) (voters : List Voter) :
+    (voters ≠ [] → runVoteE cfg voters = some (runVote cfg voters)) ∧
+    (runVoteE cfg voters = none ↔ voters = [] ∧ cfg.strategy = .threshold ∧ cfg.minVoters = 0) ∧
+    (∀ r, runVoteE cfg voters = some r → r = runVote cfg voters) := by
+  rw [runVoteE_eq]
+  refine ⟨fun hne => by simp [c06_run_vote_returns cfg voters hne], ?_, ?_⟩
+  · unfold runVoteRaises
+    constructor
+    · intro h
+      split_ifs at h with hr
+      simp only [Bool.and_eq_true, decide_eq_true_eq, Bool.not_eq_true', decide_eq_false_iff_not] at hr
+      obtain ⟨⟨h0, hs⟩, hg⟩ := hr
+      have hv : voters = [] := List.length_eq_zero_iff.mp h0
+      subst hv
+      refine ⟨rfl, hs, ?_⟩
+      simp [collect, activeCount, ofKind] at hg
+      exact hg
+    · rintro ⟨rfl, hs, hm⟩
+      simp [hs, hm, collect, activeCount, ofKind]
+  · intro r h
+    split_ifs at h
+    exact (Option.some.inj h).symm
+
+/-- both cases occur: the empty colony under the count strategy raises unless the gate catches it; a lone voter never does -/
+example : runVoteE ⟨.threshold, none, 0⟩ [] = none ∧ (runVoteE ⟨.threshold, none, 1⟩ []).isSome = true ∧
+    (runVoteE ⟨.threshold, some (3 / 10), 0⟩ [voterOf .block 1 1]).isSome = true := by decide +kernel
+
 /-- Every constant was established from the current code (`extractionComplete`: by evaluation, by reading the
     expression that feeds the likelihood and evaluating its leaves, by measuring the Bayesian aggregator on probes),
     and the constants are in the range the theorems above rely on: default thresholds
